@@ -13,13 +13,23 @@ use std::task::{Context, Poll, Waker};
 pub(crate) struct QueueInner<S, K: Clone> {
     counter: atomic::AtomicUsize,
     ready_queue: BinaryHeap<ReadyEvent<K>>,
-    streams: HashMap<K, Pin<Box<S>>>,
+    streams: HashMap<K, (u64, Pin<Box<S>>)>,
     waker: Option<Waker>,
+    // Streams that ended (their peer closed the connection), with the connection id
+    // they were inserted under. The socket drains this list to release what it still
+    // holds for those connections.
+    closed: Vec<(K, u64)>,
 }
 
 impl<S, K: Clone + Eq + Hash> QueueInner<S, K> {
     pub fn insert(&mut self, k: K, s: S) {
-        self.streams.insert(k.clone(), Box::pin(s));
+        self.insert_connection(k, s, 0)
+    }
+
+    /// Like `insert`, for a stream that is one half of the connection `connection_id`.
+    pub fn insert_connection(&mut self, k: K, s: S, connection_id: u64) {
+        self.streams
+            .insert(k.clone(), (connection_id, Box::pin(s)));
         self.ready_queue.push(ReadyEvent {
             priority: self.counter.fetch_add(1, atomic::Ordering::Relaxed),
             key: k,
@@ -101,7 +111,7 @@ where
     fn poll_next(self: Pin<&mut Self>, cx: &mut Context<'_>) -> Poll<Option<Self::Item>> {
         let fair_queue = self.get_mut();
         loop {
-            let (event, mut io_stream) = {
+            let (event, connection_id, mut io_stream) = {
                 let mut inner = fair_queue.inner.lock();
                 inner.waker = Some(cx.waker().clone());
                 let event = match inner.ready_queue.pop() {
@@ -115,7 +125,7 @@ where
                     }
                 };
                 match inner.streams.remove(&event.key) {
-                    Some(stream) => (event, stream),
+                    Some((connection_id, stream)) => (event, connection_id, stream),
                     None => continue,
                 }
             };
@@ -135,17 +145,19 @@ where
                         priority,
                         key: event.key.clone(),
                     });
-                    inner.streams.insert(event.key, io_stream);
+                    inner.streams.insert(event.key, (connection_id, io_stream));
                     return Poll::Ready(item);
                 }
                 Poll::Ready(None) => {
-                    // Peer disconnected. Don't put the stream back.
+                    // Peer disconnected. Don't put the stream back, but remember it.
                     // Continue to poll other streams instead of returning None immediately.
+                    let mut inner = fair_queue.inner.lock();
+                    inner.closed.push((event.key, connection_id));
                     continue;
                 }
                 Poll::Pending => {
                     let mut inner = fair_queue.inner.lock();
-                    inner.streams.insert(event.key, io_stream);
+                    inner.streams.insert(event.key, (connection_id, io_stream));
                     continue;
                 }
             }
@@ -162,12 +174,18 @@ impl<S, K: Clone> FairQueue<S, K> {
                 ready_queue: BinaryHeap::new(),
                 streams: HashMap::new(),
                 waker: None,
+                closed: Vec::new(),
             })),
         }
     }
 
     pub(crate) fn inner(&self) -> Arc<Mutex<QueueInner<S, K>>> {
         self.inner.clone()
+    }
+
+    /// The streams that have ended since the last call, as (key, connection id).
+    pub(crate) fn take_closed(&self) -> Vec<(K, u64)> {
+        std::mem::take(&mut self.inner.lock().closed)
     }
 }
 
